@@ -6,6 +6,7 @@
 import Psa.Proofs.WireShape
 import Psa.Proofs.Setters
 import Psa.Props.C10
+import Psa.Proofs.RoundTrip
 namespace Psa.Props.C09
 open Psa Psa.Model Psa.Spec Psa.Proofs
 
@@ -25,5 +26,37 @@ theorem own_encoding_reads_back (c : Claims) (hv : validate c = .ok ()) (hb : Cl
 /-- Text that is not valid UTF-8 is the recorded exception (D10): such a claims-set validates and
     encodes, and its own encoding is rejected by the typed decoder. -/
 theorem invalid_utf8_rejected_on_decode : decText (.tstr [0xff]) = .err := by decide
+
+/-- **decode ∘ encode, through the typed decoder**: for every valid claims-set of a built-in profile whose free text is
+    valid UTF-8 (the recorded exception D10 is exactly the violation of this hypothesis), the library's decoder applied
+    to the library's encoding — well-formedness pass, profile dispatch on key 265, struct decode key by key, component
+    arrays, nonce forms — returns the claims-set itself up to the container holding the components (`RT.rt`). `u` is the
+    URL normaliser of `eat.Profile` (an oracle of the model); it must leave the profile-2 name as it is. -/
+theorem decode_encode (u : Bytes → Dec Bytes) (extra : List Bytes) (c : Claims) (hv : validate c = .ok ())
+    (hb : ClaimsBounded c) (ht : RT.TextOK c) (hbi : RT.Builtin c) (hu : u p2Name = .ok p2Name) :
+    ∃ b, encodeClaims c = .ok b ∧ decodeClaims u extra b = .ok (RT.rt c) :=
+  RT.decode_encode u extra c hv hb ht hbi hu
+
+/-- **identical getter results, still valid, and re-encoding reproduces the bytes** -/
+theorem decode_encode_obs (u : Bytes → Dec Bytes) (extra : List Bytes) (c : Claims) (hv : validate c = .ok ())
+    (hb : ClaimsBounded c) (ht : RT.TextOK c) (hbi : RT.Builtin c) (hu : u p2Name = .ok p2Name) :
+    ∃ b c', encodeClaims c = .ok b ∧ decodeClaims u extra b = .ok c' ∧ (∀ g, Model.get g c' = Model.get g c) ∧
+      validate c' = .ok () ∧ encodeClaims c' = .ok b :=
+  RT.decode_encode_obs u extra c hv hb ht hbi hu
+
+-- non-vacuity: the sample profile-2 claims-set of C01 meets every hypothesis of the round-trip theorems
+example : validate C01.sampleP2 = .ok () := by decide
+example : RT.Builtin C01.sampleP2 := Or.inr ⟨rfl, rfl, rfl⟩
+example : RT.TextOK C01.sampleP2 := by
+  refine ⟨?_, ?_, ?_, ?_⟩
+  · intro s h
+    simp only [C01.sampleP2, Option.some.injEq, ProfVal.str.injEq] at h
+    rw [← h]; exact RT.p2Name_text.1
+  · intro s h; simp [C01.sampleP2] at h
+  · intro s h; simp [C01.sampleP2] at h
+  · intro sc h
+    simp only [heldComps, C01.sampleP2, SwField.elems, List.filterMap_cons, id, List.filterMap_nil, List.mem_singleton] at h
+    subst h
+    refine ⟨?_, ?_, ?_⟩ <;> (intro s h; simp [C01.sampleComp] at h)
 
 end Psa.Props.C09
